@@ -152,6 +152,15 @@ CLAIMED = {
         note="Assumed: A-SOLVE (the interior point solver returns a point of the box it is given), A-LOOKUP (block layout of "
              "ppc['gen']). Not decided: solver, branch loading / dcline / plain bus voltage constraints, DC OPF, power flow replay of "
              "the dispatch."),
+    "C04": dict(
+        text="Proof for the generic in-service element (real text): _build_pp_ext_grid gives the slack row VG = vm_pu and the ext_grid bus "
+             "VM = vm_pu, VA = va_degree; _build_pp_gen gives PG = p_mw*scaling, VG = vm_pu, bus VM = vm_pu and the reactive box; "
+             "write_pq_results_to_element reports p*scaling (q*scaling) for in-service sgens, loads, storages; "
+             "write_voltage_dependend_load_results reports p*scaling*(cp + ci*v + cz*v^2) at the solved voltage of the load's own "
+             "bus. The Q-limit enforcement loop and the shunt law are only a bounded stand-in (native power flows on two fixed "
+             "networks incl. a two-round limiting cascade), labelled bounded.",
+        note="Assumed: A-SOLVE (Newton keeps reference / PV voltages), A-LOOKUP. Not decided deductively: "
+             "_run_ac_pf_with_qlims_enforced (needs a per-bus sum invariant), _get_shunt_results, motors, asymmetric elements."),
 }
 
 NOT_APPLICABLE = {
